@@ -397,6 +397,18 @@ impl Property for C13 {
                 if let (Ok(p0), Ok(p1)) = (pred(&a0, &b0), pred(&a1, &b1)) {
                     obs.expect(p0 == p1, &format!("commute|intersects-contains:{ta}/{tb}"), || format!("{:?} before, {:?} after; {}", p0, p1, ctx()));
                 }
+                use geo::Within;
+                let pred2 = |x: &Geometry<f64>, y: &Geometry<f64>| guard(std::panic::AssertUnwindSafe(|| (x.is_within(y), y.is_within(x), y.intersects(x), y.contains(x))));
+                if let (Ok(p0), Ok(p1)) = (pred2(&a0, &b0), pred2(&a1, &b1)) {
+                    obs.expect(p0 == p1, &format!("commute|within-and-swapped-predicates:{ta}/{tb}"), || format!("{:?} before, {:?} after; {}", p0, p1, ctx()));
+                }
+                // validity is a predicate too
+                {
+                    use geo::algorithm::validation::Validation;
+                    if let (Ok(v0), Ok(v1)) = (guard(std::panic::AssertUnwindSafe(|| (a0.is_valid(), b0.is_valid()))), guard(std::panic::AssertUnwindSafe(|| (a1.is_valid(), b1.is_valid())))) {
+                        obs.expect(v0 == v1, &format!("commute|is_valid:{ta}/{tb}"), || format!("{:?} before, {:?} after; {}", v0, v1, ctx()));
+                    }
+                }
                 // coordinate position of a lattice point
                 let (q0, q1) = (Xf::ID.apply(*q), xf.apply(*q));
                 for (g0, g1, t) in [(&a0, &a1, ta), (&b0, &b1, tb)] {
@@ -409,6 +421,12 @@ impl Property for C13 {
                 for (g0, g1, gm, t) in [(&a0, &a1, a, ta), (&b0, &b1, b, tb)] {
                     let (ar0, ar1) = (g0.unsigned_area(), g1.unsigned_area());
                     obs.expect(rel(ar0, ar1, s * s), &format!("commute|unsigned_area:{t}"), || format!("{ar0} before, {ar1} after (factor {}); {}", s * s, ctx()));
+                    // the signed area additionally changes sign under a reflection
+                    let (sa0, sa1) = (g0.signed_area(), g1.signed_area());
+                    // (a Rect has no orientation - its signed area is never negative - so only geometries without one flip)
+                    fn has_rect(g: &G) -> bool { match g { G::Rect(..) => true, G::Coll(v) => v.iter().any(has_rect), _ => false } }
+                    let sgn = if xf.reflects() && !matches!(gm, G::Rect(..)) { -1.0 } else { 1.0 };
+                    obs.expect(rel(sa0 * sgn, sa1, s * s) || (has_rect(gm) && !matches!(gm, G::Rect(..))), &format!("commute|signed_area:{t}"), || format!("{sa0} before, {sa1} after (factor {}); {}", sgn * s * s, ctx()));
                     // length of linear types
                     let len = |g: &Geometry<f64>| -> Option<f64> {
                         match g {
@@ -459,6 +477,21 @@ impl Property for C13 {
                         let flip = |w: geo::algorithm::winding_order::WindingOrder| match w { geo::algorithm::winding_order::WindingOrder::Clockwise => geo::algorithm::winding_order::WindingOrder::CounterClockwise, _ => geo::algorithm::winding_order::WindingOrder::Clockwise };
                         let same = if xf.reflects() { w0.map(flip) == w1 } else { w0 == w1 };
                         obs.expect(same, "commute|winding_order", || format!("{:?} before, {:?} after; {}", w0, w1, ctx()));
+                    }
+                }
+                // Hausdorff distance (every pair) and Frechet distance (two line strings) scale like lengths
+                if !a.is_empty() && !b.is_empty() {
+                    use geo::{FrechetDistance, HausdorffDistance};
+                    let maxabs = xf.max_abs(a).max(xf.max_abs(b));
+                    if let (Ok(h0), Ok(h1)) = (guard(std::panic::AssertUnwindSafe(|| a0.hausdorff_distance(&b0))), guard(std::panic::AssertUnwindSafe(|| a1.hausdorff_distance(&b1)))) {
+                        let ok = (h0 * s - h1).abs() <= 1e-12 * h1.abs() + 4.0 * ulp(maxabs);
+                        obs.expect(ok, &format!("commute|hausdorff_distance:{ta}/{tb}"), || format!("{h0} before, {h1} after (factor {s}); {}", ctx()));
+                    }
+                    if let (Geometry::LineString(l0), Geometry::LineString(m0), Geometry::LineString(l1), Geometry::LineString(m1)) = (&a0, &b0, &a1, &b1) {
+                        if let (Ok(f0), Ok(f1)) = (guard(std::panic::AssertUnwindSafe(|| l0.frechet_distance(m0))), guard(std::panic::AssertUnwindSafe(|| l1.frechet_distance(m1)))) {
+                            let ok = (f0 * s - f1).abs() <= 1e-12 * f1.abs() + 4.0 * ulp(maxabs);
+                            obs.expect(ok, "commute|frechet_distance", || format!("{f0} before, {f1} after (factor {s}); {}", ctx()));
+                        }
                     }
                 }
                 // distance
